@@ -35,6 +35,7 @@ def setup(ctx):
     ctx.require("monitor", "ipv6_urls", 300)
     ctx.require("monitor", "live_roundtrips", 22)
     ctx.require("monitor", "wire_lines_checked", 5000)
+    ctx.require("monitor", "live_length_boundary_urls", 100)
 
 
 def host_key(h: str) -> str:
@@ -230,6 +231,49 @@ def run_l3(ctx):
                         ctx.count("outcome", "live-ok:" + info["host_kind"])
                 pc, qc = path_class(url)
                 ctx.case(("L3", info["host_kind"], host_text, pc, qc), True, sample={"level": "L3", "url": url, "seen": seen[:1]})
+            # ---- URLs at the length limit (the request line is limited to 1024 BYTES including CRLF; the normalised
+            # form can be one byte longer than the input): whatever the client accepts must get through intact
+            for shape in ("empty-path+query", "path", "path+query", "empty-path-no-query"):
+                for fill in ("a", "\u00e9", "\u4e2d"):
+                    for total in (1018, 1020, 1021, 1022, 1023, 1024, 1030):
+                        head = f"gemini://{host_text}:{srv.port}"
+                        mid = {"empty-path+query": "?q=", "path": "/p/", "path+query": "/p?q=", "empty-path-no-query": ""}[shape]
+                        room = total - len(head.encode()) - len(mid)
+                        if shape == "empty-path-no-query" or room < 4:
+                            if shape != "empty-path-no-query":
+                                continue
+                            url = head
+                        else:
+                            k = room // len(fill.encode())
+                            url = head + mid + fill * k + "a" * (room - k * len(fill.encode()))
+                        seen.clear()
+
+                        async def go2():
+                            c = GeminiClient(timeout=10, trust_on_first_use=False)
+                            return await c.get(url, follow_redirects=False)
+
+                        wit = {"url": url[:60] + "..." + url[-20:], "url_bytes": len(url.encode()), "url_chars": len(url), "shape": shape, "bind": bind}
+                        ctx.count("monitor", "live_length_boundary_urls")
+                        try:
+                            resp = asyncio.run(go2())
+                        except ValueError as e:
+                            ctx.count("outcome", "live-length:not-accepted")
+                            ctx.case(("L3-length", shape, fill, total, "not-accepted"), True, sample=dict(wit, error=str(e)[:60]))
+                            continue
+                        except Exception as e:  # noqa: BLE001
+                            ctx.violation("wire-mismatch:client-failed:length-boundary", f"client failed on an URL it did not refuse: {e!r}", dict(wit, error=repr(e)))
+                            continue
+                        ctx.count("monitor", "live_roundtrips")
+                        if resp.status != 20 or len(seen) != 1:
+                            ctx.violation(f"wire-mismatch:server-refused:length-boundary:{shape}", f"the client accepted and sent an URL of {len(url.encode())} bytes ({len(url)} characters); the server answered {resp.status} {resp.meta!r}", dict(wit, status=resp.status))
+                        else:
+                            sp = uri.split_rfc3986(url)
+                            exp_path, exp_query = (sp[2] or "/"), (sp[3] or "")
+                            if ((seen[0]["path"] or "/"), (seen[0]["query"] or "")) != (exp_path, exp_query):
+                                ctx.violation("wire-mismatch:path+query:length-boundary", "handler saw a different path/query than the caller asked for", dict(wit, seen_path=seen[0]["path"][:40], seen_query=(seen[0]["query"] or "")[:40]))
+                            else:
+                                ctx.count("outcome", "live-length:ok")
+                        ctx.case(("L3-length", shape, fill, total, resp.status), True, sample=wit)
 
 
 def run(ctx):
